@@ -403,3 +403,31 @@ func VerifC34Tail() {
 	line = append(line, []rune(verifC34Tails[rt.Choice("tail", t)])...)
 	verifC34Check(line)
 }
+
+var (
+	verifC34Payloads = []string{"${rm x}", "@{rm}", "${out x}", "${ rm }"}
+	verifC34Wraps    = [][2]string{{"", ""}, {"(", ")"}, {"\"", "\""}, {"'", "'"}, {"((", "))"}, {"%(", ")"}, {"{", "}"}, {"[", "]"}, {"%[", "]"}, {"(\"", "\")"}, {"\"(", ")\""}, {"('", "')"}}
+	verifC34Fill     = []string{"", "x", " ", "\\", "$", "("}
+	verifC34Cmds     = []string{"out ", "", "if ", "try ", "out x", "out: "}
+)
+
+// VerifC34Embed: a sub-shell (the one construct that runs code from inside a parameter) embedded in
+// every quoting context: <command><open><filler><sub-shell><filler><close><flow token><tail>.
+func VerifC34Embed() {
+	pick := func(name string, pool []string, n int) string {
+		if n > len(pool) {
+			n = len(pool)
+		}
+		return pool[rt.Choice(name, n)]
+	}
+	w := rt.Param("wraps")
+	if w > len(verifC34Wraps) {
+		w = len(verifC34Wraps)
+	}
+	wrap := verifC34Wraps[rt.Choice("wrap", w)]
+	line := pick("cmd", verifC34Cmds, rt.Param("cmds")) + wrap[0] + pick("pre", verifC34Fill, rt.Param("fill")) +
+		pick("payload", verifC34Payloads, rt.Param("payloads")) + pick("post", verifC34Fill, rt.Param("fill")) + wrap[1] +
+		pick("flow", verifC34Flows, rt.Param("flows")) + pick("tail", verifC34Tails, rt.Param("tails"))
+	rt.Reach("embedded")
+	verifC34Check([]rune(line))
+}
